@@ -49,6 +49,9 @@ pub struct Flags {
     #[serde(default)]
     pub restrict_which: u8,
     pub delay: Option<(u32, u8)>,
+    /// the input text ends without a final newline
+    #[serde(default)]
+    pub no_final_newline: bool,
 }
 
 #[derive(Serialize, Deserialize, Clone, Debug)]
@@ -177,9 +180,9 @@ fn flags() -> BoxedStrategy<Flags> {
             any::<bool>(),
         ),
         (1u8..=16, any::<bool>(), style()),
-        (proptest::option::of((any::<u16>(), any::<u16>(), any::<u16>())), prop::bool::weighted(0.3), proptest::option::of((any::<u32>(), 30u8..=100)), 0u8..3),
+        (proptest::option::of((any::<u16>(), any::<u16>(), any::<u16>())), prop::bool::weighted(0.3), proptest::option::of((any::<u32>(), 30u8..=100)), 0u8..3, prop::bool::weighted(0.3)),
     )
-        .prop_map(|((threads, parallel, single_pass, inmemory, uncompressed), (block_size, zooms, style, ucsc), (back_threads, back_inmemory, back_style), (restrict, restrict_chrom_only, delay, restrict_which))| Flags {
+        .prop_map(|((threads, parallel, single_pass, inmemory, uncompressed), (block_size, zooms, style, ucsc), (back_threads, back_inmemory, back_style), (restrict, restrict_chrom_only, delay, restrict_which, no_final_newline))| Flags {
             threads,
             parallel,
             single_pass,
@@ -196,6 +199,7 @@ fn flags() -> BoxedStrategy<Flags> {
             restrict_chrom_only,
             restrict_which,
             delay,
+            no_final_newline,
         })
         .boxed()
 }
@@ -263,6 +267,8 @@ impl Prop for C16 {
                 (t, s, i.chroms.len())
             }
         };
+        let text = if f.no_final_newline { text.trim_end_matches('\n').to_string() } else { text };
+        obs.label_if(f.no_final_newline, "input-without-final-newline");
         std::fs::write(p("in.txt"), &text).map_err(|e| e.to_string())?;
         std::fs::write(p("sizes"), &sizes).map_err(|e| e.to_string())?;
         // forward
